@@ -349,6 +349,7 @@ ChoosePath(shape, n) ==
       THEN HasDir(KindAt(<<"rta", n>>)) /\ RootEmpty("rtb") ELSE n = CHOOSE x \in Names : TRUE) = TRUE
   /\ sp' = (CASE shape \in {"one", "onep"} -> << <<"rta">> >>
              [] shape \in {"two", "twop"} -> << <<"rta">>, <<"rtb">> >>
+             [] shape = "rev" -> << <<"rtb">>, <<"rta">> >>      \* search order differs from the alphabetical order of the roots
              [] shape = "nestafter" -> << <<"rta">>, <<"rta", n>> >>
              [] shape = "nestbefore" -> << <<"rta", n>>, <<"rta">> >>)
   /\ pmode' = (shape \in {"onep", "twop"})
